@@ -143,7 +143,7 @@ var c06Perturb = []func(r *http.Request){
 	func(r *http.Request) { r.Method = "POST" },
 }
 
-var c06Clients = []string{"10.0.0.1", "10.0.0.2", "10.0.0.3", "10.1.2.3", "192.168.1.77", "203.0.113.9", "8.8.8.8", "2001:db8::1", "2001:db8::2", "::1", "fe80::1"}
+var c06Clients = []string{"10.0.0.1", "10.0.0.2", "10.0.0.3", "10.1.2.3", "192.168.1.77", "203.0.113.9", "8.8.8.8", "2001:db8::1", "2001:db8::2", "::1", "fe80::1", "fe80::1%eth0", "fe80::2%eth0", "::ffff:10.0.0.1"}
 
 // strings that are not addresses at all: only validity is required
 var c06Junk = []string{"", "junk", "not an ip", ",10.0.0.1", "  ", strings.Repeat("9", 300), "10.0.0.1.5", "[::1", "a,b,c"}
@@ -163,7 +163,7 @@ func c06Affinity(r *vres.Report, strat string, maxN int) {
 		}
 		for _, mask := range masks {
 			cases++
-			vrt.Run(vrt.Options{}, func(s *vrt.Sched) {
+			vh.RunSeq(r, "C06/sequential", func(s *vrt.Sched) {
 				k := newKit(s, kitOpts{Strategy: strat, N: n, PassiveThr: 1, Window: 1000})
 				for i := 0; i < n; i++ {
 					if mask&(1<<i) != 0 {
@@ -190,6 +190,7 @@ func c06Affinity(r *vres.Report, strat string, maxN int) {
 							}
 							sp, pt, c := sp, pt, c
 							got, status := ask(func(r *http.Request) { sp.edit(r, c); pt(r) })
+
 							how := fmt.Sprintf("%s/perturbation%d", sp.name, pi)
 							if got < 0 || mask&(1<<got) != 0 {
 								r.Violate("C06/"+strat+"/choice-not-eligible", fmt.Sprintf("%s n=%d ejected-mask=%b client %s via %s: served by %d (status %d)", strat, n, mask, c, how, got, status), n, nil)
@@ -240,7 +241,7 @@ func c06Append(r *vres.Report, maxN, clients int) {
 	start := time.Now()
 	var evals int64
 	moves := make([]int, maxN+1)
-	vrt.Run(vrt.Options{}, func(s *vrt.Sched) {
+	vh.RunSeq(r, "C06/sequential", func(s *vrt.Sched) {
 		k := newKit(s, kitOpts{Strategy: "ip_hash_consistent", N: 1})
 		prev := make([]int, clients)
 		addr := func(c int) string { return fmt.Sprintf("10.%d.%d.%d", c>>16&255, c>>8&255, c&255) }
